@@ -15,20 +15,21 @@ import (
 )
 
 type Program struct {
-	repo      string
-	pkgs      []*packages.Package
-	prog      *ssa.Program
-	spkgs     []*ssa.Package
-	funcs     map[string]*ssa.Function // key -> function (module functions incl. closures)
-	keyOf     map[*ssa.Function]string
-	contracts *ContractSet
-	tagTable  map[string]int
-	tagTypes  map[int]types.Type
-	modsets   map[*ssa.Function]*ModSet
-	scratchVC *VC
-	allNamed  []*types.Named // module named types
-	loopOrd   map[*ssa.Function]map[*ssa.BasicBlock]int
-	typesPkg  map[string]*types.Package // short name -> package
+	mutStructs map[string]string
+	repo       string
+	pkgs       []*packages.Package
+	prog       *ssa.Program
+	spkgs      []*ssa.Package
+	funcs      map[string]*ssa.Function // key -> function (module functions incl. closures)
+	keyOf      map[*ssa.Function]string
+	contracts  *ContractSet
+	tagTable   map[string]int
+	tagTypes   map[int]types.Type
+	modsets    map[*ssa.Function]*ModSet
+	scratchVC  *VC
+	allNamed   []*types.Named // module named types
+	loopOrd    map[*ssa.Function]map[*ssa.BasicBlock]int
+	typesPkg   map[string]*types.Package // short name -> package
 }
 
 func loadProgram(repo, specDir string) (*Program, error) {
